@@ -30,10 +30,11 @@ def shipped_modules():
 
 
 class Built:
-    def __init__(self, mod, tags, desc):
+    def __init__(self, mod, tags, desc, pool=None):
         self.mod = mod
         self.tags = tags
         self.desc = desc
+        self.pool = pool or []   # every (thunk, description) built, not only the claimed ones
 
 
 def arg_pattern(rng, depth=1, meta=0.4, notation=0.3, syms=SYMS):
@@ -66,7 +67,7 @@ def pat(rng, depth=1, meta=0.4, notation=0.3, syms=SYMS):
     return repo.P().Symbol(rng.choice(syms))
 
 
-def random_module(rng: random.Random, max_claims=6, with_imports=True, syms=SYMS, pool_rounds=None) -> Built:
+def random_module(rng: random.Random, max_claims=6, with_imports=True, syms=SYMS, pool_rounds=None, static_instantiate=0.0) -> Built:
     PR = repo.mod('proof')
     P = repo.P()
     Prop = repo.mod('proofs.propositional').Propositional
@@ -177,6 +178,20 @@ def random_module(rng: random.Random, max_claims=6, with_imports=True, syms=SYMS
                         tags.add('identity_instantiation')
                     add(mod.dynamic_inst(th, delta), f'dynamic_inst({d})')
                     tags.add('dynamic_inst')
+            elif r < 0.45 + static_instantiate:
+                # ProofExp.instantiate (the non-dynamic spelling), incl. empty and identity maps
+                ids = sorted(th.conc.metavars())
+                rr = rng.random()
+                if rr < 0.2 or not ids:
+                    delta = {}
+                    tags.add('empty_instantiation')
+                elif rr < 0.35:
+                    delta = {ids[0]: P.MetaVar(ids[0])}
+                    tags.add('identity_instantiation')
+                else:
+                    delta = {i: p_() for i in ids if rng.random() < 0.8} or {ids[0]: p_()}
+                add(mod.instantiate(th, delta), f'instantiate({d}, keys={sorted(delta)})')
+                tags.add('static_instantiate')
             elif r < 0.6:
                 lr = P.Implies.unwrap(th.conc)
                 if lr:
@@ -217,7 +232,7 @@ def random_module(rng: random.Random, max_claims=6, with_imports=True, syms=SYMS
         desc.append(f'claim {th.conc}  by {d}')
     if len(chosen) >= 2:
         tags.add('claims>=2')
-    return Built(mod, tags, desc)
+    return Built(mod, tags, desc, pool)
 
 
 def serialize(mod, directory: Path, name: str, optimize: bool, fmt='binary'):
